@@ -31,6 +31,9 @@ CANDIDATE_VIA = {
 }
 
 
+STABLE_VIA = set(CANDIDATE_VIA) | {'Memvid::rebuild_indexes'}
+
+
 def run(ctx):
     ctx.rule('MPT-C04a', 'recover_wal (records applied): Ok only via apply_records -> record_checkpoint -> persist_header -> sync_all')
     ctx.rule('MPT-C04b', 'open_locked persists a recovered header only under the inequality test, with the recovered values')
@@ -94,7 +97,13 @@ def run(ctx):
                 for g in reach.values():
                     w = [x for x in g.calls() if x.is_(('persist_header', 'HeaderCodec::write'))]
                     if w:
-                        hits.append((c, [c.key, g.key, w[0].key]))
+                        # key by the reviewed operation, also when it is reached through a thin private wrapper (`flush_x_if_pending`)
+                        first = c.key
+                        if first not in STABLE_VIA:
+                            inner = {x.key for x in F.fns[lc].calls() if x.key in STABLE_VIA}
+                            if len(inner) == 1:
+                                first = inner.pop()
+                        hits.append((c, [first, g.key, w[0].key]))
                         break
         if not window:
             ctx.lost('MPT-C04d', 'recover_wal: no calls between apply_records and record_checkpoint (anchors moved)')
@@ -134,6 +143,16 @@ def run(ctx):
     if ol is not None:
         ctx.touch(ol, len(ol.blocks))
         rt = ol.calls_to('recover_toc')
+        if not rt:
+            # the read-or-recover block extracted into a helper: decide the same clauses in the helper
+            F_ = ctx.facts()
+            for c in ol.calls():
+                h = F_.fns.get(c.local_callee) if c.local_callee else None
+                if h is not None and not h.is_closure and h.calls_to('recover_toc'):
+                    ol = h
+                    ctx.touch(ol, len(ol.blocks))
+                    rt = ol.calls_to('recover_toc')
+                    break
         if not rt:
             ctx.lost('MPT-C04b', 'open_locked no longer calls recover_toc')
         else:
